@@ -362,7 +362,9 @@ fn main() {
     let tier = args.tier;
     let dates = b_dates(tier);
     let times = b_times_fracs(true);
-    let offs = b_offsets_small();
+    let mut offs = b_offsets_small();
+    // the hours at which the printed width of the offset's hour field changes, and the last hour
+    offs.extend([32_400, -35_940, 36_000, -36_000, 37_800, -39_540, 82_800, -86_340]);
     // value lattice for the ts modules (non-leap instants)
     let mut values: Vec<i128> = vec![];
     for &z in &b_dates_small() {
